@@ -2,10 +2,10 @@ package core
 
 import (
 	"fmt"
-	"os"
 	"go/constant"
 	"go/token"
 	"go/types"
+	"os"
 	"strings"
 
 	"golang.org/x/tools/go/ssa"
@@ -50,6 +50,15 @@ func Strip(v ssa.Value) ssa.Value {
 					// stores each result, runs the deferred calls and loads it back): the value stored
 					// just before in the same block
 					if sv := sameBlockStore(a, x); sv != nil {
+						v = sv
+						continue
+					}
+				}
+				if fa, ok := x.X.(*ssa.FieldAddr); ok {
+					// a field of a request-scoped carrier struct (the locals of a long function turned
+					// into fields of a small unexported struct with methods) that is written exactly once
+					// in the whole module: the load is that value
+					if sv := carrierFieldValue(fa); sv != nil {
 						v = sv
 						continue
 					}
@@ -2367,4 +2376,105 @@ func valueFixedByBranch(v ssa.Value, pred, merge *ssa.BasicBlock) (bool, bool) {
 		}
 	}
 	return false, false
+}
+
+// AllModFuncs: the module's functions (set by Load).
+var AllModFuncs []*ssa.Function
+
+var fieldStoresMemo map[*types.Var][]*ssa.Store
+
+// fieldStores: every store into the field in the module.
+func fieldStores(f *types.Var) []*ssa.Store {
+	if fieldStoresMemo == nil {
+		fieldStoresMemo = map[*types.Var][]*ssa.Store{}
+		for _, fn := range AllModFuncs {
+			AllInstrs(fn, func(in ssa.Instruction) {
+				if st, ok := in.(*ssa.Store); ok {
+					if g, _ := FieldOfAddr(st.Addr); g != nil {
+						fieldStoresMemo[g] = append(fieldStoresMemo[g], st)
+					}
+				}
+			})
+		}
+	}
+	return fieldStoresMemo[f]
+}
+
+// carrierFieldValue: fa addresses a field of an unexported struct type declared in the module,
+// other than the long-lived records, that is stored to exactly once module-wide (outside any
+// loop): the stored value (nil when that does not hold).
+func carrierFieldValue(fa *ssa.FieldAddr) ssa.Value {
+	f, base := FieldOfAddr(fa)
+	if f == nil || base == nil {
+		return nil
+	}
+	bt := base.Type()
+	if p, ok := bt.Underlying().(*types.Pointer); ok {
+		bt = p.Elem()
+	}
+	named, ok := bt.(*types.Named)
+	if !ok || named.Obj().Exported() || named.Obj().Pkg() == nil || !strings.HasPrefix(named.Obj().Pkg().Path(), ModPath) {
+		return nil
+	}
+	if LongLivedRecords[named.Obj().Name()] {
+		return nil
+	}
+	sts := fieldStores(f)
+	if len(sts) != 1 || inLoop(sts[0].Block()) {
+		return nil
+	}
+	// the type is instantiated at one place only (an object filled by other means - decoding,
+	// reflection - next to one built by a literal would not hold the stored value)
+	al := allocsOfType(named)
+	if len(al) != 1 {
+		return nil
+	}
+	return sts[0].Val
+}
+
+var allocsMemo map[*types.Named][]*ssa.Alloc
+
+func allocsOfType(t *types.Named) []*ssa.Alloc {
+	if allocsMemo == nil {
+		allocsMemo = map[*types.Named][]*ssa.Alloc{}
+		for _, fn := range AllModFuncs {
+			AllInstrs(fn, func(in ssa.Instruction) {
+				if a, ok := in.(*ssa.Alloc); ok {
+					if n, ok := a.Type().(*types.Pointer).Elem().(*types.Named); ok {
+						allocsMemo[n] = append(allocsMemo[n], a)
+					}
+				}
+			})
+		}
+	}
+	return allocsMemo[t]
+}
+
+// CarrierFieldValue exposes carrierFieldValue to the rules (nil when the field is not a
+// write-once field of a request-scoped struct).
+func CarrierFieldValue(fa *ssa.FieldAddr) ssa.Value { return carrierFieldValue(fa) }
+
+// LongLivedRecords: unexported struct types whose fields are state, not request-scoped carriers.
+var LongLivedRecords = map[string]bool{
+	"perUserData": true, "perSessionData": true, "perSubsData": true, "videoCall": true, "callPartyData": true,
+	"clusterFailover": true, "sessionStoreElement": true, "concurrentSessionMap": true, "configType": true,
+	"authenticator": true, "adapter": true, "fshandler": true, "shutDown": true, "presParams": true, "presFilters": true,
+}
+
+func inLoop(b *ssa.BasicBlock) bool {
+	seen := map[*ssa.BasicBlock]bool{}
+	work := append([]*ssa.BasicBlock{}, b.Succs...)
+	for len(work) > 0 {
+		x := work[len(work)-1]
+		work = work[:len(work)-1]
+		if x == b {
+			return true
+		}
+		if seen[x] {
+			continue
+		}
+		seen[x] = true
+		work = append(work, x.Succs...)
+	}
+	return false
 }
